@@ -100,6 +100,8 @@ def detect(name, tier='quick', checks=None):
 
 # changes filed under one property whose observable effect is (also) another property's subject
 SIBLINGS = {
+    'C04-r14-2': ['C04', 'C07'],  # the lexer fails on a long string when a matching `]]` stands earlier in the chunk: one-chunk lexing is C07's subject
+    'C13-r8-2': ['C13', 'C05'],   # decompress_code runs past the declared length: the code codec is C05's subject
     'C01-r2-1': ['C01', 'C02'],   # label/goto renamed inconsistently: the renaming relation is C02's oracle
     'C01-r2-3': ['C01', 'C02'],   # name map shared between minifier runs: non-injective renaming (C02)
     'C01-r3-2': ['C01', 'C02'],   # an unrenamed identifier collides with an earlier generated name: non-injective renaming (C02)
@@ -133,6 +135,8 @@ SIBLINGS = {
 
 # changes whose author's demonstration is not a violation of the property as stated (kept for the record, not counted as misses)
 NOT_A_VIOLATION = {
+    'C06-r14-3': 'only affects quoted strings that spell `\\u{...}`: Lua 5.2 and PICO-8 have no such escape, and an unknown escape is a lexical '
+                 'error of the dialect (Appendix A), so such a source is not one of the programs the statement ranges over',
     'C09-r4-3': 'only affects `0xff..s` (hex/binary numeral directly followed by `..`), which the Lua 5.2 / PICO-8 lexer rejects as a malformed '
                 'number: not a valid program, so outside the domain of C09 (and of the reference lexer)',
     'C08-r5-3': 'same lexer change as C09-r4-3: only `0x10..name` (hex/binary numeral directly followed by `..`) is affected, which the Lua 5.2 / '
